@@ -86,6 +86,26 @@ theorem unchecked_calls :
     Gen.uncheckedCalls = [("hash.rs", "from_utf8_unchecked"), ("hash.rs", "from_utf8_unchecked")] := by
   decide
 
+/-- Census of `unsafe` in the crate's own non-test code: the only `unsafe { }` blocks are the calls into the
+`#[target_feature]` kernels from the two dispatchers and the two `from_utf8_unchecked` calls; the only
+`unsafe fn`s are those kernels; `optionally_unsafe!` wraps exactly the `invariant!()` sites proved above.
+A new `unsafe` block anywhere (e.g. a `set_len` on a read buffer) breaks this obligation. -/
+theorem unsafe_census :
+    Gen.unsafeCensus =
+      [("compare/dist_body.rs", 9, 0, 0), ("compare/dist_body/arm_neon.rs", 0, 3, 0),
+       ("compare/dist_body/x86_avx2.rs", 0, 3, 0), ("compare/dist_body/x86_sse2.rs", 0, 3, 0),
+       ("compare/dist_body/x86_sse4_1.rs", 0, 3, 0), ("generate.rs", 0, 0, 1),
+       ("generate/bucket_aggregation.rs", 7, 0, 0), ("generate/bucket_aggregation/wasm32_simd128.rs", 0, 2, 0),
+       ("generate/bucket_aggregation/x86_avx2.rs", 0, 2, 0), ("generate/bucket_aggregation/x86_sse2.rs", 0, 2, 0),
+       ("generate/bucket_aggregation/x86_ssse3.rs", 0, 2, 0), ("hash.rs", 2, 0, 1), ("length.rs", 0, 0, 1)] := by
+  decide
+
+/-- The definitions of `invariant!` / `optionally_unsafe!` (macros.rs) are the reviewed ones: with feature
+`unsafe` and outside `cfg(test)`, `invariant!(e)` is `if !(e) { unreachable_unchecked() }` (or
+`intrinsics::assume(e)` with `unstable`), otherwise `debug_assert!(e)`.  The invariant theorems above are
+about that reading of the macro. -/
+theorem macros_reviewed : Gen.macrosFingerprint = "3c28e83d4db15bbec316d05b004b45e3" := by decide
+
 /-- …and that text is pure ASCII (hence valid UTF-8). -/
 theorem utf8_ok (h : Hash) (p : Spec.Prefix) : ∀ b ∈ Spec.format h p, b < 128 := by
   intro b hb
